@@ -125,6 +125,48 @@ Proof.
   intros a st Hon H. apply Forall_forall. intros l Hl. destruct (H l Hl) as [[Hg (t & w & Hp)]|Hr]; [|exact Hr].
   exact (goodc_line_reads dec2f dec2d o l t w Hon Hg Hp).
 Qed.
+
+(* ---- stage 6: the per-line premise for the lines of EVERY parameter kind ------------------------
+   good_line (Save/PrintLines.v): a scalar port's line carries one value - a 32-bit int, a char, a
+   finite float (both zeroes), a boolean, a string or quoted symbol without NUL, a bare symbol; a
+   "name#N" port's line carries one array of such elements of one type (C10's list-level conditions:
+   no '.' in quoted text, +0.0 and -0.0 not both).  Excluded: NaN and the infinities (their text is
+   not read back: nan / inf are not float literals of the scanner), arrays mixing types (an option
+   array holding a number without symbol).  Savefiles are printed with the default options, which
+   are lossless. *)
+Definition line_ok (l : line) : Prop :=
+  good_line l /\
+  (l_array l = true -> exists t w, print_message o (l_path l) (line_avs l) 0 = Some (t, w)).
+
+Theorem good_lines_read : forall ls,
+  lossless o = true -> Forall line_ok ls -> Forall (line_reads dec2f dec2d o) ls.
+Proof.
+  intros ls Hl H. eapply Forall_impl; [|exact H]. intros l [Hg Hp].
+  exact (good_line_reads dec2f dec2d o l Hl Hg Hp).
+Qed.
+
+Theorem roundtrip_tree_real_lines :
+  forall hp tid t apropos fuel F st ps,
+    let a := app_of_tree t in
+    names_ok (sports_of t) = true -> tree_ok (to_tree hp tid (sports_of t)) -> Forall pt_wf t ->
+    NoDup (map dir_addr (dirs_root t)) -> NoDup (app_addresses a) ->
+    full_conditions a st -> comparable a st -> cstrings st ->
+    declared a apropos ->
+    pushes line apropos fuel (msgs (save_lines a st)) = Some ps -> ranked ps ->
+    lossless o = true -> Forall line_ok (save_lines a st) ->
+    exists fin,
+      real_load (option (list Z)) scan_text_real (fun _ l s => tree_apply_line hp tid t l s)
+                (fun _ ls => sort_by_load_order apropos fuel ls) a
+                (real_save (option (list Z)) (fun _ s => walk_tree t s) (av_eq_real F) (print_body o) a st)
+                (initial a)
+      = Some (Z.of_nat (length (save_lines a st)), fin) /\
+      forall q, (q < length a)%nat -> p_nodef (port_at a q) = false -> live a st q = true ->
+                restored_val (port_at a q) (val_at st q) (val_at fin q).
+Proof.
+  intros hp tid t apropos fuel F st ps a Hnames Htree Hwf Hdirs Haddr Hfull Hcmp Hstr Hdecl Hp Hr Hl Hlines.
+  apply (roundtrip_tree_real hp tid t apropos fuel F st ps); try assumption.
+  apply good_lines_read; assumption.
+Qed.
 End Real.
 
 (* ---- non-vacuity: the tree of TreeStage.v, switch on and /s/x = 9 (the array at its default):
@@ -173,4 +215,69 @@ Proof.
     unfold goodc_line; cbn [l_array l_path l_vals map av_of length];
     (split; [reflexivity|]); (split; [split; [eexists; reflexivity | repeat constructor]|]);
     (split; [repeat constructor; cbn; unfold small_k; cbn; lia | cbn; lia]).
+Qed.
+
+(* ---- stage 6 non-vacuity: the same tree with the array changed: /t holds [1 5 1], its line is the
+   array line "/t [1 5]" (the suffix equal to the default is trimmed); and lines of the other kinds:
+   a float, a bare option symbol, a float array with a constant run ------------------------------- *)
+Theorem roundtrip_tree_real_lines_nonvacuous : forall dec2f dec2d,
+  let a := app_of_tree fx_tree in
+  full_conditions a fx_state /\
+  print_body opts_default (save_lines a fx_state)
+    = Some [47; 101; 32; 116; 114; 117; 101; 10;  47; 115; 47; 120; 32; 57; 10;
+            47; 116; 32; 91; 49; 32; 53; 93; 10]%Z /\
+  Forall (line_ok opts_default) (save_lines a fx_state) /\
+  Forall (line_reads dec2f dec2d opts_default) (save_lines a fx_state).
+Proof.
+  intros dec2f dec2d a. unfold a. rewrite fx_tapp_eq.
+  split; [exact fx_full|]. split; [vm_compute; reflexivity|].
+  assert (H : Forall (line_ok opts_default) (save_lines fx_tapp fx_state)).
+  { change (save_lines fx_tapp fx_state)
+      with [ {| l_path := [47; 101]%Z; l_array := false; l_vals := [SaveModel.VT true] |};
+             {| l_path := [47; 115; 47; 120]%Z; l_array := false; l_vals := [SaveModel.VI 9] |};
+             {| l_path := [47; 116]%Z; l_array := true; l_vals := [SaveModel.VI 1; SaveModel.VI 5] |} ].
+    repeat constructor; unfold good_line; cbn [l_array l_path l_vals];
+      try (eexists; reflexivity); try (intros; discriminate); try (eexists; split; [reflexivity|]; cbn; lia);
+      try discriminate; try (cbn; lia); try (intros _; eexists _, _; vm_compute; reflexivity).
+    - cbn. intuition discriminate.
+    - cbn. intuition discriminate.
+    - intros x y [<-|[<-|[]]] [<-|[<-|[]]]; reflexivity. }
+  split; [exact H|]. apply good_lines_read; [reflexivity | exact H].
+Qed.
+
+Definition ex_float_line : line :=   (* /f 0.10 (0x1.99999ap-4) *)
+  {| l_path := [47; 102]%Z; l_array := false; l_vals := [SaveModel.VF 1036831949] |}.
+Definition ex_symbol_line : line :=  (* /o sine *)
+  {| l_path := [47; 111]%Z; l_array := false; l_vals := [SaveModel.VSym [115; 105; 110; 101]%Z] |}.
+Definition ex_dotted_line : line :=  (* /s "a...b" : dots are no obstacle on a one-value line *)
+  {| l_path := [47; 115]%Z; l_array := false; l_vals := [SaveModel.VS [97; 46; 46; 46; 98]%Z] |}.
+Definition ex_farray_line : line :=  (* /a [0.50 (0x1p-1) 5x-0.00 (-0x0p+0)] *)
+  {| l_path := [47; 97]%Z; l_array := true;
+     l_vals := SaveModel.VF 1056964608 :: repeat (SaveModel.VF 2147483648) 5 |}.
+
+Theorem good_line_examples : forall dec2f dec2d,
+  Forall (line_ok opts_default) [ex_float_line; ex_symbol_line; ex_dotted_line; ex_farray_line] /\
+  Forall (line_reads dec2f dec2d opts_default) [ex_float_line; ex_symbol_line; ex_dotted_line; ex_farray_line] /\
+  print_body opts_default [ex_float_line; ex_symbol_line; ex_dotted_line; ex_farray_line] =
+  Some ([47; 102; 32; 48; 46; 49; 48; 32; 40; 48; 120; 49; 46; 57; 57; 57; 57; 57; 97; 112; 45; 52; 41; 10] ++
+        [47; 111; 32; 115; 105; 110; 101; 10] ++
+        [47; 115; 32; 34; 97; 46; 46; 46; 98; 34; 10] ++
+        [47; 97; 32; 91; 48; 46; 53; 48; 32; 40; 48; 120; 49; 112; 45; 49; 41; 32; 53; 120; 45; 48; 46; 48; 48; 32;
+         40; 45; 48; 120; 48; 112; 43; 48; 41; 93; 10])%Z.
+Proof.
+  intros dec2f dec2d.
+  assert (H : Forall (line_ok opts_default) [ex_float_line; ex_symbol_line; ex_dotted_line; ex_farray_line]).
+  { repeat constructor; unfold good_line; cbn [l_array l_path l_vals ex_float_line ex_symbol_line ex_dotted_line ex_farray_line];
+      try (eexists; reflexivity); try (intros; discriminate); try discriminate;
+      try (intros _; eexists _, _; vm_compute; reflexivity).
+    - eexists; split; [reflexivity|]. cbn. split; [lia | reflexivity].
+    - eexists; split; [reflexivity|]. cbn. left. reflexivity.
+    - eexists; split; [reflexivity|]. cbn. repeat constructor; lia.
+    - cbn. intros H. repeat (destruct H as [H|H]; [inversion H|]). exact H.
+    - cbn. intros H. repeat (destruct H as [H|H]; [inversion H|]). exact H.
+    - intros x y Hx Hy. cbn in Hx, Hy.
+      repeat (destruct Hx as [<-|Hx]; [|]); try contradiction;
+      repeat (destruct Hy as [<-|Hy]; [|]); try contradiction; reflexivity. }
+  split; [exact H|]. split; [apply good_lines_read; [reflexivity | exact H]|].
+  vm_compute. reflexivity.
 Qed.
